@@ -11,4 +11,5 @@ def run(ctx, L, tier):
     R.last_member_and_casts(ctx, L)
     R.f17_raw(ctx, L)
     M.dynamic_predicates(ctx, L)
+    M.size_formulas(ctx, L)      # the swap advances by the model's block alignments (PROPHY_STRUCT(N) partK, align<N>): they must be the documented ones
     return sorted(set(o.rule for o in L.obligations))
